@@ -3,8 +3,8 @@
 T-gen : Gen/Schemas.v (input schemas, default_short_configuration_input; translator gen_schemas)
         and Gen/InputFlow.v (mandatory attribute set, `images` list, call lists of main /
         check_conf; translator gen_inputs).  Per-run obligations in Props/C17.v.
-        and Gen/CheckFns.v (the nine small check functions of check_configuration.py translated statement by
-        statement over Model/CheckPrims.v; translator gen_check_fns; generated = model proved for all inputs in
+        and Gen/CheckFns.v (the nine small check functions of check_configuration.py and the custom-checking tail of check_input_section
+        translated statement by statement over Model/CheckPrims.v; translator gen_check_fns; generated = model proved for all inputs in
         Proofs/CheckGenP.v, headline theorems restated on the generated functions in Props/C17.v).
 T-corr: Model/DatasetCheck.v (fid 1) against the real check_configuration.check_datasets on
         in-memory xarray datasets; Model/InputCheck.v (fid 2) against the real
@@ -937,6 +937,9 @@ def run(ctx):
         "on the abstraction of the files, for every configuration value and every file system of rasters",
         "C17_gen_check_images_eq / C17_gen_check_image_dimension_eq: Gen.CheckFns.check_images / check_image_dimension "
         "(regenerated; order of the reads, the loop over mask / classif / segm, both sides) = the model, all inputs",
+        "C17_gen_check_input_section_custom_eq: the statements of check_input_section after checker.validate(cfg) "
+        "(regenerated: which custom check on which values of the completed configuration, in which order) = the tail of "
+        "the model; C17_check_completed_is_validation_then_custom: the model is its validation part then that tail",
         "C17_gen_check_datasets_iff_wellformed / C17_gen_interval_length_checked / C17_gen_check_completed_iff_documented: "
         "the three headline theorems restated on the regenerated functions",
         "translator gen_check_fns: the nine names, rasterio_open, np, xr are bound once at module level the expected way "
